@@ -26,13 +26,14 @@ SPECS = [
     ('index_tree', True), ('pack_iqu', True), ('pack_iqu_T', True),
     ('bdiag_left', True), ('bdiag_right', True), ('bdiag_left_T', True),
     ('diag_a', True), ('diag_m_axis0', True), ('diag_tree', True), ('diag_a_inv', True), ('diag_zero_inv', True),
+    ('dense_complex', True), ('diag_complex', True), ('hom_complex', True), ('toep_os_short', False), ('k_int_times', True), ('k_float_times', True),
     ('diag_2d', True), ('diag_5', True), ('diag_tree_neg', True), ('dense_widening', True), ('bdiag_widening', True),
     ('lazy_inv_spd', False), ('toast_obs', True), ('toast_obs_T', True),
 ]
 SPEC_NAMES = [s[0] for s in SPECS]
 EXACT = dict(SPECS)
 NO_TRANSPOSE = {'lazy_inv_spd'}          # the library does not support transposes of the iterative inverse
-SINGLE_ONLY = {'toep_os', 'toep_batched', 'dense_widening', 'bdiag_widening'}  # widening: float16 data would overflow in products  # ~100 ms per application (fori_loop re-traced): singles only; C09 owns the methods
+SINGLE_ONLY = {'toep_os', 'toep_batched', 'toep_os_short', 'dense_widening', 'bdiag_widening', 'dense_complex', 'diag_complex', 'hom_complex'}  # widening: float16 data would overflow in products  # ~100 ms per application (fori_loop re-traced): singles only; C09 owns the methods
 MASKED = {'index_mask', 'pack_iqu', 'pack_iqu_T'}  # boolean-mask selection: excluded from the filter_jit-as-argument claim
 
 _MEMO: dict = {}
@@ -201,6 +202,8 @@ def _build(name, dt):
         return LinearPolarizerOperator(stokes('I', 2))
     if name == 'pol_iqu_T':
         return LinearPolarizerOperator(stokes('IQU', 2)).T
+    if name == 'toep_os_short':   # short signal relative to the band: default FFT size larger than the padded signal
+        return SymmetricBandToeplitzOperator(arr([4, 1, 0.5, 0.25]), sds(2))
     if name.startswith('toep_'):
         meth = {'toep_dense': 'dense', 'toep_direct': 'direct', 'toep_fft': 'fft', 'toep_os': 'overlap_save', 'toep_batched': 'overlap_save'}[name]
         if name == 'toep_batched':
@@ -238,6 +241,20 @@ def _build(name, dt):
         return Dg().I
     if name == 'diag_zero_inv':
         return DiagonalOperator(arr([2, 0]), in_structure=a).I
+    if name in ('dense_complex', 'diag_complex', 'hom_complex'):   # complex-valued parameters: the transpose must NOT conjugate
+        C = jnp.complex64 if dt == 'f32' else jnp.complex128
+        ac = jax.ShapeDtypeStruct((2,), C)
+        if name == 'dense_complex':
+            return DenseBlockDiagonalOperator(jnp.asarray([[1 + 2j, 3], [-1j, 2 - 1j], [4, 0.5j]], C), ac, 'ij,j->i')
+        if name == 'diag_complex':
+            return DiagonalOperator(jnp.asarray([2 + 1j, -3j], C), in_structure=ac)
+        return HomothetyOperator(jnp.asarray(0.5 - 2j, C), ac)
+    if name == 'toep_os_short':   # short signal relative to the band: default FFT size larger than the padded signal
+        return SymmetricBandToeplitzOperator(arr([4, 1, 0.5, 0.25]), sds(2))
+    if name == 'k_int_times':
+        return 2 * P()
+    if name == 'k_float_times':
+        return 2.0 * P()
     if name == 'diag_5':   # same space as the Toeplitz specimens: symmetric-tagged operators that do not commute
         return DiagonalOperator(arr([2, -1, 4, 0.5, 3]), in_structure=sds(5))
     if name == 'diag_tree_neg':   # negative axis on leaves of different rank: it resolves to a different axis per leaf
